@@ -77,7 +77,14 @@ def register(rng):
     E("rel:np.linalg.eig:asymmetric", "m", "np.linalg.eig(m)[0].real", [[F([[1.0, 2.0], [0.0, 3.0]])]], ["np.linalg.eig"], cat="rel", kind="rel", props=["C17"], tol=1e-9, modes=["conc"])
     E("rel:np.linalg.eigh", "m", "np.linalg.eigh(m)", [[F(sym(rng.choice([1, 2, 3, 4])))] for _ in range(NCASES)], ["np.linalg.eigh"], cat="rel", kind="rel", props=["C11"], tol=1e-9, extra_facts=_eigh_facts, modes=["conc"])
     E("rel:np.linalg.eigh:where-sqrt-pattern", "m", "(lambda w, v: np.where(w > 0, np.sqrt(np.abs(w)), w))(*np.linalg.eigh(m))", [[F(sym(2))] for _ in range(10)], ["np.linalg.eigh", "np.where", "np.sqrt"], cat="rel", kind="rel", props=["C11"], tol=1e-9, modes=["conc"])
+    _register_tail(rng)
     E("rel:np.linalg.eigh:nonsquare", "m", "np.linalg.eigh(m)", [[F([[1.0, 2.0, 3.0], [4.0, 5.0, 6.0]])]], ["np.linalg.eigh"], cat="rel", kind="rel", props=["C11"], modes=["conc"])
+
+
+def _register_tail(rng):
+    register_voronoi(rng)
+    register_scipy(rng)
+    register_misc(rng)
 
 
 def _eigh_facts(eo, bind, ze):
@@ -103,3 +110,145 @@ def _eigh_facts(eo, bind, ze):
             dot = sum((V(z3.IntVal(b), z3.IntVal(k)) * V(z3.IntVal(b), z3.IntVal(l)) for b in range(n)), z3.RealVal(0))
             out.append((f"eigh orthonormal columns {k},{l}", dot == (1 if k == l else 0)))
     return out
+
+
+def _voro_binder(eo, real, pl):
+    """interpretation of the lifted result functions of the C20 Voronoi contract (CN, NBR, WGT, REV, VOL, ROW, COL) read off the
+    real freud output: the neighbour list is sorted by its first column; REV pairs every bond (i -> j) with a bond (j -> i) of the
+    same weight"""
+    from pyvc.libext import C20
+    if "exc" in real or not C20.SYSTEMS:
+        return {}
+    vl = list(C20.SYSTEMS.values())[-1]
+    ret = real["ret"]["v"]
+    nl, w, vol = ret[0]["v"], ret[1]["v"], ret[2]["v"]
+    N = len(vol)
+    cn = [sum(1 for row in nl if row[0] == i) for i in range(N)]
+    S = [0]
+    for c in cn:
+        S.append(S[-1] + c)
+    name = {k: f.name() for k, f in vl.f.items()}
+    b = {}
+    for i in range(N):
+        b[(name["CN"], (i,))] = cn[i]
+        b[(name["VOL"], (i,))] = vol[i]
+        for r in range(cn[i]):
+            b[(name["NBR"], (i, r))] = nl[S[i] + r][1]
+            b[(name["WGT"], (i, r))] = w[S[i] + r]
+    for t, row in enumerate(nl):
+        b[(name["ROW"], (t,))] = row[0]
+        b[(name["COL"], (t,))] = t - S[row[0]]
+    used = set()
+    for i in range(N):
+        for r in range(cn[i]):
+            j = nl[S[i] + r][1]
+            cands = [q for q in range(cn[j]) if nl[S[j] + q][1] == i and (j, q) not in used]
+            if not cands:
+                continue            # REV stays unbound: the facts about it become unsatisfiable or are left to the solver
+            q = min(cands, key=lambda q: abs(w[S[j] + q] - w[S[i] + r]))
+            if (i, r) not in [(x, y) for x, y in used]:
+                b[(name["REV"], (i, r))] = q
+                b[(name["REV"], (j, q))] = r
+                used.add((i, r))
+                used.add((j, q))
+    return b
+
+
+def _voro_cases(rng, dims, n):
+    L = [rng.choice([4.0, 5.0, 6.5]) for _ in range(dims)]
+    pts = []
+    for _ in range(n):
+        p = [round(rng.uniform(-l / 2, l / 2) * 0.98, 3) for l in L]
+        pts.append(p + [0.0] * (3 - dims))
+    return [F(L), F(pts)]
+
+
+_VORO_SRC = """
+def f(L, pts):
+    box = freud.box.Box.from_box(L)
+    voro = freud.locality.Voronoi()
+    res = voro.compute((box, pts))
+    nl = np.array(voro.nlist)
+    return nl, voro.nlist.weights, voro.volumes, res is voro
+"""
+
+
+def register_voronoi(rng):
+    from libcheck_corpus import S
+    cases = [_voro_cases(rng, 2, rng.randint(4, 6)) for _ in range(5)] + [_voro_cases(rng, 3, rng.randint(5, 7)) for _ in range(3)]
+    S("rel:freud.Voronoi", _VORO_SRC, cases, ["freud.locality.Voronoi", "freud.locality.Voronoi.compute", "freud.box.Box.from_box"], cat="rel", kind="rel", props=["C20"],
+      header="import freud\n", binder=_voro_binder, modes=["conc"], tol=1e-5, fact_tol=1e-5, fact_range=7)
+    S("rel:freud.Voronoi:unique-counts-pattern", """
+def f(L, pts):
+    box = freud.box.Box.from_box(L)
+    voro = freud.locality.Voronoi()
+    voro.compute((box, pts))
+    nlist = np.array(voro.nlist) + 1
+    unique, counts = np.unique(nlist[:, 0], return_counts=True)
+    return unique, counts, voro.volumes
+""", cases[:4] + cases[5:7], ["freud.locality.Voronoi", "np.unique"], cat="rel", kind="rel", props=["C20"], header="import freud\n", binder=_voro_binder_uc, modes=["conc"], tol=1e-5, fact_tol=1e-5)
+    S("rel:freud.Voronoi:z-nonzero-in-2D", _VORO_SRC, [[F([4.0, 4.0]), F([[0.0, 0.0, 0.5], [1.0, 1.0, 0.0], [-1.0, 0.5, 0.0], [0.5, -1.0, 0.0]])]], ["freud.locality.Voronoi.compute"], cat="rel", kind="rel", props=["C20"],
+      header="import freud\n", modes=["conc"])
+    S("rel:freud.Voronoi:attributes-before-compute", "def f(L):\n    v = freud.locality.Voronoi()\n    return v.volumes\n", [[F([4.0, 4.0])]], ["freud.locality.Voronoi"], cat="rel", kind="rel", props=["C20"], header="import freud\n", modes=["conc"])
+    S("rel:freud.Box", "def f(L):\n    b = freud.box.Box.from_box(L)\n    return b.Lx, b.Ly, b.Lz, b.is2D, b.dimensions, b.volume, b.L\n", [[F([4.0, 5.0])], [F([4.0, 5.0, 2.5])]], ["freud.box.Box.from_box"], cat="rel", kind="rel", props=["C20"],
+      header="import freud\n", modes=["conc"], tol=1e-6)
+
+
+def _voro_binder_uc(eo, real, pl):
+    """np.unique(first column) pattern: only counts and volumes are returned; CN(i) = counts[i], VOL(i) = volumes[i]"""
+    from pyvc.libext import C20
+    if "exc" in real or not C20.SYSTEMS:
+        return {}
+    vl = list(C20.SYSTEMS.values())[-1]
+    ret = real["ret"]["v"]
+    counts, vol = ret[1]["v"], ret[2]["v"]
+    b = {}
+    for i, c in enumerate(counts):
+        b[(vl.f["CN"].name(), (i,))] = c
+        b[(vl.f["VOL"].name(), (i,))] = vol[i]
+    return b
+
+
+def _ylm_engine(interp, l, m, theta, phi):
+    """the meaning contracts/C08.py gives to scipy.special.sph_harm_y(l, m, theta, phi) (and sph_harm(m, l, phi, theta)): the abstract
+    Y_lm(polar = theta, azimuth = phi), whose definition is contracts.C08.Y_spec — evaluated here on rational angles"""
+    import contracts.C08 as C8
+    from pyvc import sv
+    re_, im_ = C8.Y_spec(int(l), int(m), theta, phi)
+    return sv.Cx(re_, im_)
+
+
+def register_scipy(rng):
+    from libcheck_corpus import S
+    cases = []
+    for l in (1, 2, 3, 4, 6, 8, 10):
+        for m in sorted({-l, -1, 0, 1, l, rng.randint(-l, l)}):
+            cases.append([l, m, round(rng.uniform(0.05, 3.09), 3), round(rng.uniform(-3.1, 3.1), 3)])
+    S("rel:scipy.sph_harm_y", "def f(l, m, theta, phi):\n    return sph_harm_y(l, m, theta, phi)\n", cases, ["scipy.special.sph_harm_y"], cat="rel", kind="value", props=["C08"],
+      header="from scipy.special import sph_harm_y\n", engine_call=_ylm_engine, modes=["conc"], tol=1e-10)
+    S("rel:scipy.sph_harm", "def f(l, m, theta, phi):\n    return sph_harm(m, l, phi % (2 * np.pi), theta)\n", cases[:6], ["scipy.special.sph_harm"], cat="rel", kind="value", props=["C08"],
+      header="from scipy.special import sph_harm\n", engine_call=_ylm_engine, modes=["conc"], tol=1e-10,
+      limitation="the installed scipy 1.18.1 has no scipy.special.sph_harm (ImportError; removed upstream): the contract of contracts/C08.py for it cannot be compared here (the repository falls back to sph_harm_y, fix 2dc5a1d)")
+
+
+def register_misc(rng):
+    from libcheck_corpus import FILE, S
+    S("rel:sympy.wigner_3j", "def f(a, b, c, d, e, g):\n    return float(wigner_3j(a, b, c, d, e, g).evalf())\n", [[2, 2, 2, 0, 0, 0], [2, 2, 2, 1, -1, 0], [4, 4, 4, 2, -2, 0], [6, 6, 6, 0, 0, 0], [2, 2, 2, 1, 1, 1]],
+      ["sympy.wigner_3j", "scalar.ident", "float"], cat="rel", kind="rel", props=["C09"], header="from sympy.physics.wigner import wigner_3j\n", modes=["conc"])
+    S("misc:dataclasses.replace", """
+@dataclass(frozen=True)
+class Snap:
+    n: int
+    x: float
+    pos: object = None
+
+
+def f(n, x, a):
+    s = Snap(n, x)
+    t = replace(s, pos=a, n=n + 1)
+    return s.n, s.x, s.pos is None, t.n, t.x, t.pos
+""", [[3, 0.5, F([1.0, 2.0])]], ["dataclasses.replace"], cat="value", header="from dataclasses import dataclass, replace\n")
+    S("misc:dataclasses.replace:unknown-field", "@dataclass(frozen=True)\nclass Snap:\n    n: int\n\n\ndef f(n):\n    return replace(Snap(n), m=1).n\n", [[3]], ["dataclasses.replace"], cat="value", header="from dataclasses import dataclass, replace\n")
+    S("misc:dataclasses.frozen-assignment", "@dataclass(frozen=True)\nclass Snap:\n    n: int\n\n\ndef f(n):\n    s = Snap(n)\n    s.n = 5\n    return s.n\n", [[3]], [], cat="value", header="from dataclasses import dataclass, replace\n")
+    S("misc:scalar-methods", "def f(a):\n    x = a[0] * 2\n    return x.sum(), (a * a).sum().real, x.real, x.conjugate(), a[1].conj(), x.dtype == 'float64', x.shape\n", [[F([1.5, 2.5])], [C([1 + 2j, 3j])]], ["scalar.ident", "scalar.conj"], cat="value")
+    S("misc:tok.isnumeric", "def f(path):\n    fh = open(path)\n    item = fh.readline().split()\n    return [w.isnumeric() for w in item]\n", [[FILE("12 abc -3 007\n")]], ["tok.isnumeric", "open", "file.readline"], cat="file")
